@@ -40,6 +40,15 @@ pub fn main(opts: &Opts) -> ! {
     let acc = Mutex::new(Acc { counters: Counters::default(), failures: vec![], distinct: BTreeSet::new(), samples: vec![], ops: 0 });
     let stop = AtomicBool::new(false);
     let deadline = Some(t0 + std::time::Duration::from_secs_f64(budget));
+    let seed = opts.seed;
+    set_watch(Watch {
+        property: "C17",
+        limit_s: 300,
+        describe: Box::new(move |i| {
+            let (nr, nc, ops) = gen_mat_history(seed, i);
+            json!({"rows": nr, "cols": nc, "ops": ops.iter().map(|o| o.to_json()).collect::<Vec<_>>()}).to_string()
+        }),
+    });
     let done = par_map(n, opts.threads, deadline, &stop, |i| {
         let (nr, nc, ops) = gen_mat_history(opts.seed, i);
         let mut c = Counters::default();
